@@ -9,5 +9,5 @@ Local Open Scope string_scope.
 
 Lemma windows_as_advertised : window_args =
   [("server.sender", "frame.InitialWindowSize"); ("server.receiver", "initialWindowSize");
-   ("client.sender", "c.settings.InitialWindowSize"); ("client.receiver", "initialWindowSize")].
+   ("client.sender", "settings.InitialWindowSize"); ("client.receiver", "initialWindowSize")].
 Proof. reflexivity. Qed.
